@@ -110,6 +110,10 @@ def oracle_facts(spaces, lowers, words):
     # premises of the C18 theorem: the keyword characters are not white space; lower-casing a character that is not a
     # parenthesis never produces a parenthesis
     facts.append(('keyword_chars_not_space', all(ord(c) not in sp for c in 'andorwith()')))
+    # premises of the C05 round-trip theorem: the letters of AND OR WITH are not white space and lower-case to and or with
+    facts.append(('operator_letters_not_space', all(ord(c) not in sp for c in 'ANDORWITH()')))
+    facts.append(('operators_lower_to_keywords', all(list(low.get(ord(c), [ord(c)])) == [ord(c) + 32] for c in 'ANDORWITH')
+                  and ('AND'.lower(), 'OR'.lower(), 'WITH'.lower(), '('.lower(), ')'.lower()) == ('and', 'or', 'with', '(', ')')))
     facts.append(('lower_never_makes_paren', all(40 not in lo and 41 not in lo for cp, lo in low.items())))
     # '-', ':', '.', '+' are not word characters or spaces; letters, digits, '_' are word characters
     def isw(c):
